@@ -1,5 +1,21 @@
 /-
-Lemmas.PowiBound — error bound of `TwoFloat::powi` (property C13, numerical part).
+Lemmas.PowiBound — error analysis of `TwoFloat::powi` (property C13, numerical part; statements in
+`TFV/Properties/C13b.lean`).
+
+ 1. `F64.dwtimesdw_err_5u2_j66`: the binade analysis of DWTimesDW3 (`F64.dwtimesdw_err_5u2` of `Lemmas/Bounds.lean`,
+    same proof) only needs `ulp(xh)·ulp(yh) ≥ 4·2^-1074·2^66`; hence
+    `TwoFloat.mul_tt_bound_5u2_12u3_wide`: relative error `≤ 5u² + 12u³` for `TwoFloat * TwoFloat` whenever both high
+    words are normal and their product has magnitude in `[2^-901, 2^1021)` (the factors themselves may be as large as
+    `2^900` or as small as `2^-900` — needed for `result *= value` in `powi`).
+ 2. `PowiBound.Rel a r e :⟺ |r − e| ≤ ((1 + cK)^a − 1)·|e|`, `cK = 5u² + 12u³`: closed under products (`rel_mul`) and
+    under one more rounding (`rel_step`); `pow_cK_le`: `(1 + cK)^k − 1 ≤ k·cK·(1 + 2^-69) ≤ 2^-71` for `k ≤ 2^31`.
+ 3. `PowiBound.val t = t.V / 2^1074 : ℚ`; `val_mul_bound` (one multiplication in rational terms), `mul_rel`, `sq_rel`.
+ 4. the loop: `loop_succ` / `loop_zero` (one iteration on a `u32` counter), `loop_general`
+    (`result ≈ v^m` with `Rel (m−1)`, `value ≈ v^j` with `Rel (j−1)` ⟹ final `result ≈ v^(m + j·q)` with
+    `Rel (m + j·q − 1)`), `loop_one` (from `result = 1` exactly: the first multiplication is exact), `loop_rel`.
+    The squaring of `value` in the last iteration is never used and is not constrained (it may overflow).
+ 5. `rel_linear` (`Rel (N−1)` ⟹ `(6N+16)·2^-106`), `recip_rel` / `recip_val` / `recip_of_rel` (negative exponents via
+    `C01d.recip_bound`, `16u²`), `close_sign`.
 -/
 import TFV.Lemmas.Bounds
 import TFV.Properties.C04x
@@ -548,5 +564,424 @@ theorem loop_zero (fuel : Nat) (r w : TwoFloat) :
   | succ k =>
     rw [TwoFloat.powi.loop1, Ident.u32_gt_zero]
     simp
+
+end PowiBound
+
+namespace PowiBound
+
+open F64 TwoFloat
+
+/-- all powers `v^i`, `1 ≤ i ≤ N`, have magnitude in `[2^-900, 2^900]` -/
+def Rng (v : ℚ) (N : ℕ) : Prop := ∀ i, 1 ≤ i → i ≤ N → 1 / 2 ^ 900 ≤ |v| ^ i ∧ |v| ^ i ≤ 2 ^ 900
+
+theorem rng_of_pow {v : ℚ} {N : ℕ} (hlo : 1 / 2 ^ 900 ≤ |v| ^ N) (hhi : |v| ^ N ≤ 2 ^ 900) : Rng v N := by
+  intro i hi1 hiN
+  have h0 := abs_nonneg v
+  rcases le_or_gt 1 |v| with h | h
+  · have h1 : (1 : ℚ) ≤ |v| ^ i := one_le_pow₀ h
+    have h2 : |v| ^ i ≤ |v| ^ N := pow_le_pow_right₀ h hiN
+    have h3 : (1 : ℚ) / 2 ^ 900 ≤ 1 := by
+      rw [div_le_one (by positivity)]; exact one_le_pow₀ (by norm_num)
+    exact ⟨le_trans h3 h1, le_trans h2 hhi⟩
+  · have h1 : |v| ^ i ≤ 1 := pow_le_one₀ h0 (le_of_lt h)
+    have h2 : |v| ^ N ≤ |v| ^ i := pow_le_pow_of_le_one h0 (le_of_lt h) hiN
+    have h3 : (1 : ℚ) ≤ 2 ^ 900 := one_le_pow₀ (by norm_num)
+    exact ⟨le_trans hlo h2, le_trans h1 h3⟩
+
+theorem num1 : (1 : ℚ) / 2 ^ 1000 ≤ 1 / 2 * (1 / 2 ^ 900) := by norm_num
+theorem num2 : (3 : ℚ) / 2 ^ 902 = 3 / 4 * (1 / 2 ^ 900) := by norm_num
+theorem num3 : 2 * (2 : ℚ) ^ 900 ≤ 2 ^ 1000 := by norm_num
+
+theorem aux_lo {a x η L K : ℚ} (pa : 0 ≤ a) (hη : η ≤ 1 / 8) (h1 : L ≤ a) (h2 : (1 - η) * a ≤ x)
+    (hK : K ≤ 1 / 2 * L) : K ≤ x := by
+  have := mul_le_mul_of_nonneg_right hη pa
+  linarith
+
+theorem aux_prod_lo {a b X η L : ℚ} (pa : 0 ≤ a) (pb : 0 ≤ b) (h0 : 0 ≤ η) (hη : η ≤ 1 / 8) (hL : L ≤ a * b)
+    (h : ((1 - η) * a) * ((1 - η) * b) ≤ X) : 3 / 4 * L ≤ X := by
+  have e : ((1 - η) * a) * ((1 - η) * b) = (1 - η) * (1 - η) * (a * b) := by ring
+  have k : 3 / 4 ≤ (1 - η) * (1 - η) := by nlinarith
+  have := mul_le_mul_of_nonneg_right k (mul_nonneg pa pb)
+  rw [e] at h
+  linarith
+
+theorem aux_prod_hi {a b X η H : ℚ} (pa : 0 ≤ a) (pb : 0 ≤ b) (h0 : 0 ≤ η) (hη : η ≤ 1 / 8) (hH : a * b ≤ H)
+    (h : X ≤ ((1 + η) * a) * ((1 + η) * b)) : X ≤ 2 * H := by
+  have e : ((1 + η) * a) * ((1 + η) * b) = (1 + η) * (1 + η) * (a * b) := by ring
+  have k : (1 + η) * (1 + η) ≤ 2 := by nlinarith
+  have := mul_le_mul_of_nonneg_right k (mul_nonneg pa pb)
+  rw [e] at h
+  linarith
+
+/-- magnitude of an approximation of `v^m` -/
+theorem rel_range {v : ℚ} {N m : ℕ} (hN : N ≤ 2 ^ 31) (hmN : m ≤ N)
+    {r : ℚ} (hr : Rel (m - 1) r (v ^ m)) :
+    (1 - 1 / 2 ^ 71) * |v| ^ m ≤ |r| ∧ |r| ≤ (1 + 1 / 2 ^ 71) * |v| ^ m := by
+  have := rel_abs hr (pow_cK_le (m - 1) (by omega)).2
+  rwa [abs_pow] at this
+
+theorem mul_rel {v : ℚ} {N m j : ℕ} (hR : Rng v N) (hN : N ≤ 2 ^ 31) (hm : 1 ≤ m) (hj : 1 ≤ j)
+    (hmj : m + j ≤ N) {r w : TwoFloat} (hvr : r.Valid) (hwr : r.WF) (hvw : w.Valid) (hww : w.WF)
+    (hr : Rel (m - 1) (val r) (v ^ m)) (hw : Rel (j - 1) (val w) (v ^ j)) :
+    (arithmetic.impl_Mul_rTwoFloat_for_rTwoFloat.mul r w).Valid ∧
+    (arithmetic.impl_Mul_rTwoFloat_for_rTwoFloat.mul r w).WF ∧
+    Rel (m + j - 1) (val (arithmetic.impl_Mul_rTwoFloat_for_rTwoFloat.mul r w)) (v ^ (m + j)) := by
+  obtain ⟨a1, a2⟩ := rel_range hN (show m ≤ N by omega) hr
+  obtain ⟨b1, b2⟩ := rel_range hN (show j ≤ N by omega) hw
+  obtain ⟨c1, _⟩ := hR m hm (by omega)
+  obtain ⟨d1, _⟩ := hR j hj (by omega)
+  obtain ⟨f1, f2⟩ := hR (m + j) (by omega) hmj
+  rw [pow_add] at f1 f2
+  have pr := abs_nonneg (val r)
+  have pw := abs_nonneg (val w)
+  have hη : (0 : ℚ) ≤ 1 / 2 ^ 71 := by positivity
+  have hη' : (1 : ℚ) / 2 ^ 71 ≤ 1 / 8 := by norm_num
+  have pa : 0 ≤ |v| ^ m := by positivity
+  have pb : 0 ≤ |v| ^ j := by positivity
+  have hx : 1 / 2 ^ 1000 ≤ |val r| := aux_lo pa hη' c1 a1 num1
+  have hy : 1 / 2 ^ 1000 ≤ |val w| := aux_lo pb hη' d1 b1 num1
+  have lo1 : ((1 - 1 / 2 ^ 71) * |v| ^ m) * ((1 - 1 / 2 ^ 71) * |v| ^ j) ≤ |val r| * |val w| :=
+    mul_le_mul a1 b1 (mul_nonneg (by linarith) pb) pr
+  have hi1 : |val r| * |val w| ≤ ((1 + 1 / 2 ^ 71) * |v| ^ m) * ((1 + 1 / 2 ^ 71) * |v| ^ j) :=
+    mul_le_mul a2 b2 pw (mul_nonneg (by linarith) pa)
+  have hlo : 3 / 2 ^ 902 ≤ |val r * val w| := by
+    rw [abs_mul, num2]
+    exact aux_prod_lo pa pb hη hη' f1 lo1
+  have hhi : |val r * val w| ≤ 2 ^ 1000 := by
+    rw [abs_mul]
+    exact le_trans (aux_prod_hi pa pb hη hη' f2 hi1) num3
+  obtain ⟨hV, hW, hb⟩ := val_mul_bound hvr hwr hvw hww hx hy hlo hhi
+  refine ⟨hV, hW, ?_⟩
+  have := rel_step (rel_mul hr hw) hb
+  rw [← pow_add] at this
+  have e : m - 1 + (j - 1) + 1 = m + j - 1 := by omega
+  rwa [e] at this
+
+end PowiBound
+
+namespace PowiBound
+
+open F64 TwoFloat
+
+/-- squaring an approximation of `v^j` -/
+theorem sq_rel {v : ℚ} {N j : ℕ} (hR : Rng v N) (hN : N ≤ 2 ^ 31) (hj : 1 ≤ j) (h2j : 2 * j ≤ N)
+    {w : TwoFloat} (hvw : w.Valid) (hww : w.WF) (hw : Rel (j - 1) (val w) (v ^ j)) :
+    (arithmetic.impl_Mul_rTwoFloat_for_rTwoFloat.mul w w).Valid ∧
+    (arithmetic.impl_Mul_rTwoFloat_for_rTwoFloat.mul w w).WF ∧
+    Rel (2 * j - 1) (val (arithmetic.impl_Mul_rTwoFloat_for_rTwoFloat.mul w w)) (v ^ (2 * j)) := by
+  have := mul_rel hR hN hj hj (by omega) hvw hww hvw hww hw hw
+  rwa [← two_mul] at this
+
+/-- the loop from a general state: `result ≈ v^m`, `value ≈ v^j`, `q` remaining -/
+theorem loop_general {v : ℚ} {N : ℕ} (hR : Rng v N) (hN : N ≤ 2 ^ 31) :
+    ∀ (fuel : ℕ) (r w : TwoFloat) (qn m j : ℕ), qn < 2 ^ fuel → qn < 2 ^ 32 → 1 ≤ qn → 1 ≤ m → 1 ≤ j →
+      m + j * qn ≤ N → r.Valid → r.WF → w.Valid → w.WF →
+      Rel (m - 1) (val r) (v ^ m) → Rel (j - 1) (val w) (v ^ j) →
+      (TwoFloat.powi.loop1 fuel r w ⟨(qn : Int)⟩).1.Valid ∧ (TwoFloat.powi.loop1 fuel r w ⟨(qn : Int)⟩).1.WF ∧
+      Rel (m + j * qn - 1) (val (TwoFloat.powi.loop1 fuel r w ⟨(qn : Int)⟩).1) (v ^ (m + j * qn)) := by
+  intro fuel
+  induction fuel with
+  | zero => intro r w qn m j h1 _ h3; simp at h1; omega
+  | succ k ih =>
+    intro r w qn m j hq1 hq2 hq3 hm hj hmj hvr hwr hvw hww hr hw
+    rw [loop_succ k r w qn hq2 (by omega)]
+    have hk : 2 ^ (k + 1) = 2 * 2 ^ k := by rw [pow_succ]; ring
+    have hjq : j ≤ j * qn := Nat.le_mul_of_pos_right _ (by omega)
+    by_cases hodd : qn % 2 = 1
+    · rw [if_pos hodd]
+      obtain ⟨pV, pW, pR⟩ := mul_rel hR hN hm hj (by omega) hvr hwr hvw hww hr hw
+      by_cases hq' : qn / 2 = 0
+      · have : qn = 1 := by omega
+        subst this
+        rw [hq', loop_zero]
+        rw [mul_one]
+        exact ⟨pV, pW, pR⟩
+      · have hqn : qn = 2 * (qn / 2) + 1 := by omega
+        have e : m + j * qn = (m + j) + (2 * j) * (qn / 2) := by
+          conv_lhs => rw [hqn]
+          ring
+        have h2 : 2 * j ≤ (2 * j) * (qn / 2) := Nat.le_mul_of_pos_right _ (by omega)
+        obtain ⟨sV, sW, sR⟩ := sq_rel hR hN hj (by omega) hvw hww hw
+        have := ih _ _ (qn / 2) (m + j) (2 * j) (by omega) (by omega) (by omega) (by omega) (by omega)
+          (by omega) pV pW sV sW pR sR
+        rwa [← e] at this
+    · rw [if_neg hodd]
+      have hqn : qn = 2 * (qn / 2) := by omega
+      have e : m + j * qn = m + (2 * j) * (qn / 2) := by
+        conv_lhs => rw [hqn]
+        ring
+      have h2 : 2 * j ≤ (2 * j) * (qn / 2) := Nat.le_mul_of_pos_right _ (by omega)
+      obtain ⟨sV, sW, sR⟩ := sq_rel hR hN hj (by omega) hvw hww hw
+      have := ih _ _ (qn / 2) m (2 * j) (by omega) (by omega) (by omega) hm (by omega)
+        (by omega) hvr hwr sV sW hr sR
+      rwa [← e] at this
+
+/-- the exact `1` the loop starts from -/
+def oneT : TwoFloat := ⟨F64.one, F64.zero⟩
+
+theorem one_mul_exact {w : TwoFloat} (hvw : w.Valid) (hww : w.WF) :
+    (arithmetic.impl_Mul_rTwoFloat_for_rTwoFloat.mul oneT w).Valid ∧
+    (arithmetic.impl_Mul_rTwoFloat_for_rTwoFloat.mul oneT w).WF ∧
+    val (arithmetic.impl_Mul_rTwoFloat_for_rTwoFloat.mul oneT w) = val w := by
+  have h := C04x.mul_tt_one_left oneT w hvw hww rfl rfl rfl rfl
+  have hV : (arithmetic.impl_Mul_rTwoFloat_for_rTwoFloat.mul oneT w).V = w.V := h.2.2.1
+  exact ⟨h.2.2.2.1, h.2.2.2.2, by unfold val; rw [hV]⟩
+
+/-- the loop from the initial state: `result = 1` exactly (the first multiplication into `result` is exact) -/
+theorem loop_one {v : ℚ} {N : ℕ} (hR : Rng v N) (hN : N ≤ 2 ^ 31) :
+    ∀ (fuel : ℕ) (w : TwoFloat) (qn j : ℕ), qn < 2 ^ fuel → qn < 2 ^ 32 → 1 ≤ qn → 1 ≤ j →
+      j * qn ≤ N → w.Valid → w.WF → Rel (j - 1) (val w) (v ^ j) →
+      (TwoFloat.powi.loop1 fuel oneT w ⟨(qn : Int)⟩).1.Valid ∧ (TwoFloat.powi.loop1 fuel oneT w ⟨(qn : Int)⟩).1.WF ∧
+      Rel (j * qn - 1) (val (TwoFloat.powi.loop1 fuel oneT w ⟨(qn : Int)⟩).1) (v ^ (j * qn)) := by
+  intro fuel
+  induction fuel with
+  | zero => intro w qn j h1 _ h3; simp at h1; omega
+  | succ k ih =>
+    intro w qn j hq1 hq2 hq3 hj hjq hvw hww hw
+    rw [loop_succ k oneT w qn hq2 (by omega)]
+    have hk : 2 ^ (k + 1) = 2 * 2 ^ k := by rw [pow_succ]; ring
+    by_cases hodd : qn % 2 = 1
+    · rw [if_pos hodd]
+      obtain ⟨pV, pW, pE⟩ := one_mul_exact hvw hww
+      have pR : Rel (j - 1) (val (arithmetic.impl_Mul_rTwoFloat_for_rTwoFloat.mul oneT w)) (v ^ j) := by
+        rw [pE]; exact hw
+      by_cases hq' : qn / 2 = 0
+      · have : qn = 1 := by omega
+        subst this
+        rw [hq', loop_zero, mul_one]
+        exact ⟨pV, pW, pR⟩
+      · have hqn : qn = 2 * (qn / 2) + 1 := by omega
+        have e : j * qn = j + (2 * j) * (qn / 2) := by
+          conv_lhs => rw [hqn]
+          ring
+        have h2 : 2 * j ≤ (2 * j) * (qn / 2) := Nat.le_mul_of_pos_right _ (by omega)
+        obtain ⟨sV, sW, sR⟩ := sq_rel hR hN hj (by omega) hvw hww hw
+        have := loop_general hR hN k _ _ (qn / 2) j (2 * j) (by omega) (by omega) (by omega) hj (by omega)
+          (by omega) pV pW sV sW pR sR
+        rwa [← e] at this
+    · rw [if_neg hodd]
+      have hqn : qn = 2 * (qn / 2) := by omega
+      have e : j * qn = (2 * j) * (qn / 2) := by
+        conv_lhs => rw [hqn]
+        ring
+      have h2 : 2 * j ≤ (2 * j) * (qn / 2) := Nat.le_mul_of_pos_right _ (by omega)
+      obtain ⟨sV, sW, sR⟩ := sq_rel hR hN hj (by omega) hvw hww hw
+      have := ih _ (qn / 2) (2 * j) (by omega) (by omega) (by omega) (by omega) (by omega) sV sW sR
+      rwa [← e] at this
+
+end PowiBound
+
+/-! ## `powi` -/
+
+namespace PowiBound
+
+open F64 TwoFloat
+
+theorem i32_gt_zero (m : I32) : (m >. (0 : I32)) = decide (0 < m.v) := by
+  show (match (some (if m.v < (0 : Int) then ROrdering.Less else if m.v = 0 then .Equal else .Greater)) with
+        | some .Greater => true | _ => false) = _
+  by_cases a : m.v < 0
+  · have : ¬ (0 < m.v) := by omega
+    simp [a, this]
+  · by_cases b : m.v = 0
+    · simp [b]
+    · have : 0 < m.v := by omega
+      simp [a, b, this]
+
+theorem powi_loop_eq (x : TwoFloat) (n : I32) (hn : 2 ≤ n.v ∨ n.v ≤ -2) :
+    TwoFloat.powi x n =
+      if 0 < n.v then (TwoFloat.powi.loop1 33 oneT x ⟨(n.v.natAbs : Int)⟩).1
+      else TwoFloat.recip (TwoFloat.powi.loop1 33 oneT x ⟨(n.v.natAbs : Int)⟩).1 := by
+  have e (m : I32) (c : Int) : (m ==. (⟨c⟩ : I32)) = decide (m.v = c) := rfl
+  have h0 : (n ==. (0 : I32)) = false := by rw [show (0 : I32) = ⟨0⟩ from rfl, e, decide_eq_false_iff_not]; omega
+  have h1 : (n ==. (1 : I32)) = false := by rw [show (1 : I32) = ⟨1⟩ from rfl, e, decide_eq_false_iff_not]; omega
+  have hm1 : (n ==. (-1 : I32)) = false := by
+    rw [show (-1 : I32) = ⟨-1⟩ from rfl, e, decide_eq_false_iff_not]; omega
+  rw [C13.powi_general x n h0 h1 hm1, i32_gt_zero, C13.one_words]
+  simp only [decide_eq_true_eq]
+  rfl
+
+/-- the positive power computed by the loop: valid, and `Rel (N − 1)` of the exact power (`N − 1` inexact
+multiplications' worth of error, whatever the bit pattern of `N`) -/
+theorem loop_rel (x : TwoFloat) (hv : x.Valid) (hw : x.WF) (N : ℕ) (hN1 : 1 ≤ N) (hN : N ≤ 2 ^ 31)
+    (hlo : 1 / 2 ^ 900 ≤ |val x| ^ N) (hhi : |val x| ^ N ≤ 2 ^ 900) :
+    (TwoFloat.powi.loop1 33 oneT x ⟨(N : Int)⟩).1.Valid ∧ (TwoFloat.powi.loop1 33 oneT x ⟨(N : Int)⟩).1.WF ∧
+    Rel (N - 1) (val (TwoFloat.powi.loop1 33 oneT x ⟨(N : Int)⟩).1) (val x ^ N) := by
+  have hR := rng_of_pow hlo hhi
+  have h0 : Rel (1 - 1) (val x) (val x ^ 1) := by rw [pow_one]; exact rel_zero _
+  have := loop_one hR hN 33 x N 1 (lt_of_le_of_lt hN (by norm_num)) (lt_of_le_of_lt hN (by norm_num)) hN1
+    (le_refl 1) (by omega) hv hw h0
+  rwa [one_mul] at this
+
+end PowiBound
+
+namespace PowiBound
+
+open F64 TwoFloat
+
+theorem num4 : cK * (1 + 1 / 2 ^ 69) ≤ 6 / 2 ^ 106 := by unfold cK; norm_num
+theorem num5 : cK * (1 + 1 / 2 ^ 69) * (1 + 1 / 2 ^ 68) ≤ 6 / 2 ^ 106 := by unfold cK; norm_num
+
+/-- from `Rel (N − 1)` to the linear bounds `(N − 1)·cK·(1 + 2^-69) ≤ (6N + 16)·2^-106` -/
+theorem rel_linear {N : ℕ} (hN1 : 1 ≤ N) (hN : N ≤ 2 ^ 31) {r e : ℚ} (h : Rel (N - 1) r e) :
+    |r - e| ≤ ((N : ℚ) - 1) * cK * (1 + 1 / 2 ^ 69) * |e| ∧ |r - e| ≤ (6 * (N : ℚ) + 16) / 2 ^ 106 * |e| := by
+  unfold Rel at h
+  have hp := (pow_cK_le (N - 1) (by omega)).1
+  have hc : ((N - 1 : ℕ) : ℚ) = (N : ℚ) - 1 := by
+    rw [Nat.cast_sub hN1]; simp
+  rw [hc] at hp
+  have pe := abs_nonneg e
+  have h1 : |r - e| ≤ ((N : ℚ) - 1) * cK * (1 + 1 / 2 ^ 69) * |e| :=
+    le_trans h (mul_le_mul_of_nonneg_right hp pe)
+  refine ⟨h1, le_trans h1 (mul_le_mul_of_nonneg_right ?_ pe)⟩
+  have hN1q : (0 : ℚ) ≤ (N : ℚ) - 1 := by
+    have : (1 : ℚ) ≤ N := by exact_mod_cast hN1
+    linarith
+  have := mul_le_mul_of_nonneg_left num4 hN1q
+  have e2 : ((N : ℚ) - 1) * (6 / 2 ^ 106) ≤ (6 * (N : ℚ) + 16) / 2 ^ 106 := by
+    rw [mul_div_assoc', div_le_div_iff_of_pos_right (by positivity)]
+    linarith
+  linarith
+
+/-- reciprocal of an approximation: `s ≈ e` within `E`, `ρ·s ≈ 1` within `δ` ⟹ `ρ ≈ 1/e` within `δ + E(1 + 2^-68)` -/
+theorem recip_rel {ρ s e E δ : ℚ} (he : e ≠ 0) (hs : |s - e| ≤ E * |e|) (hρ : |1 - ρ * s| ≤ δ)
+    (hE : 0 ≤ E) (hE' : E ≤ 1 / 2 ^ 71) (hδ' : δ ≤ 1 / 2 ^ 71) :
+    |ρ - e⁻¹| ≤ (δ + E * (1 + 1 / 2 ^ 68)) * |e⁻¹| := by
+  have ha : 0 < |e| := abs_pos.2 he
+  have hδ : 0 ≤ δ := le_trans (abs_nonneg _) hρ
+  have key : |ρ * e - 1| ≤ δ + E * (1 + 1 / 2 ^ 68) := by
+    have t1 : |e| ≤ |s| + |s - e| := by
+      have := abs_add_le s (e - s)
+      rw [show s + (e - s) = e by ring, abs_sub_comm e s] at this
+      exact this
+    have t2 : |ρ * s| ≤ 1 + δ := by
+      have := abs_add_le (1 : ℚ) (-(1 - ρ * s))
+      rw [show (1 : ℚ) + -(1 - ρ * s) = ρ * s by ring, abs_neg, abs_one] at this
+      linarith
+    have t3 : |ρ * e - 1| ≤ |1 - ρ * s| + |ρ| * |s - e| := by
+      have := abs_add_le (-(1 - ρ * s)) (-(ρ * (s - e)))
+      rw [show -(1 - ρ * s) + -(ρ * (s - e)) = ρ * e - 1 by ring, abs_neg, abs_neg, abs_mul] at this
+      exact this
+    rw [abs_mul] at t2
+    have pρ := abs_nonneg ρ
+    have pt : 0 ≤ |ρ| * |e| := mul_nonneg pρ (le_of_lt ha)
+    have m1 : |ρ| * |s - e| ≤ E * (|ρ| * |e|) := by
+      have := mul_le_mul_of_nonneg_left hs pρ
+      rwa [show |ρ| * (E * |e|) = E * (|ρ| * |e|) by ring] at this
+    have m2 : (1 - E) * (|ρ| * |e|) ≤ |ρ| * |s| := by
+      have := mul_le_mul_of_nonneg_left (show (1 - E) * |e| ≤ |s| by linarith) pρ
+      rwa [show |ρ| * ((1 - E) * |e|) = (1 - E) * (|ρ| * |e|) by ring] at this
+    have m3 : (|ρ| * |e|) * E ≤ (|ρ| * |e|) * (1 / 2 ^ 71) := mul_le_mul_of_nonneg_left hE' pt
+    have m4 : |ρ| * |e| ≤ 1 + 1 / 2 ^ 68 := by
+      have : |ρ| * |e| - (|ρ| * |e|) * (1 / 2 ^ 71) ≤ 1 + 1 / 2 ^ 71 := by linarith
+      norm_num at this ⊢
+      linarith
+    have m5 : E * (|ρ| * |e|) ≤ E * (1 + 1 / 2 ^ 68) := mul_le_mul_of_nonneg_left m4 hE
+    linarith
+  have e1 : ρ - e⁻¹ = (ρ * e - 1) * e⁻¹ := by field_simp
+  rw [e1, abs_mul]
+  exact mul_le_mul_of_nonneg_right key (abs_nonneg _)
+
+end PowiBound
+
+namespace PowiBound
+
+open F64 TwoFloat
+
+theorem int_upper {t : TwoFloat} {k : ℕ} (h : |val t| ≤ 2 ^ k) : |t.V| ≤ (2 : Int) ^ (1074 + k) := by
+  rw [abs_val, div_le_iff₀ (by positivity), ← pow_add, add_comm] at h
+  exact_mod_cast h
+
+/-- `recip` in rational terms, for `2^-901 ≤ |R| ≤ 2^901` -/
+theorem recip_val {R : TwoFloat} (hv : R.Valid) (h1 : 1 / 2 ^ 901 ≤ |val R|) (h2 : |val R| ≤ 2 ^ 901) :
+    (TwoFloat.recip R).Valid ∧ (TwoFloat.recip R).WF ∧ |1 - val (TwoFloat.recip R) * val R| ≤ 1 / 2 ^ 102 := by
+  have a1 : (2 : Int) ^ 173 ≤ |R.V| := int_lower (k := 901) (by norm_num) h1
+  have a2 : |R.V| ≤ (2 : Int) ^ 1975 := int_upper (k := 901) h2
+  obtain ⟨b1, b2⟩ := hi_bounds hv
+  have c1 : (2 : Int) ^ 58 ≤ |R.hi.toInt| := by linarith
+  have c2 : |R.hi.toInt| ≤ (2 : Int) ^ 2038 := by linarith
+  have d1 : 2 ^ 58 ≤ R.hi.toInt.natAbs := by
+    rw [← Int.natCast_natAbs] at c1
+    exact_mod_cast c1
+  have d2 : R.hi.toInt.natAbs ≤ 2 ^ 2038 := by
+    rw [← Int.natCast_natAbs] at c2
+    exact_mod_cast c2
+  obtain ⟨rv, rw'⟩ := C01d.recip_valid R hv d1 (le_trans d2 (by norm_num))
+  have hb := C01d.recip_bound R hv d1 d2
+  refine ⟨rv, rw', ?_⟩
+  generalize TwoFloat.recip R = ρ at *
+  rw [unit_cast_eq] at hb
+  have hq : (2 : ℚ) ^ 102 * |(2 : ℚ) ^ 1074 * 2 ^ 1074 - (ρ.V : ℚ) * (R.V : ℚ)| ≤ 2 ^ 1074 * 2 ^ 1074 := by
+    exact_mod_cast hb
+  unfold val
+  have hU : (0 : ℚ) < 2 ^ 1074 := by positivity
+  generalize (2 : ℚ) ^ 1074 = U at *
+  have e1 : 1 - (ρ.V : ℚ) / U * ((R.V : ℚ) / U) = (U * U - (ρ.V : ℚ) * (R.V : ℚ)) / (U * U) := by
+    field_simp
+  rw [e1, abs_div, abs_of_pos (mul_pos hU hU), div_le_div_iff₀ (mul_pos hU hU) (by positivity)]
+  linarith
+
+theorem num6 : (1 : ℚ) / 2 ^ 901 ≤ 1 / 2 * (1 / 2 ^ 900) := by norm_num
+theorem num7 : 2 * (2 : ℚ) ^ 900 = 2 ^ 901 := by norm_num
+
+/-- the reciprocal of an approximate power -/
+theorem recip_of_rel {v : ℚ} {N : ℕ} (hN1 : 1 ≤ N) (hN : N ≤ 2 ^ 31)
+    (hlo : 1 / 2 ^ 900 ≤ |v| ^ N) (hhi : |v| ^ N ≤ 2 ^ 900)
+    {R : TwoFloat} (hRv : R.Valid) (hrel : Rel (N - 1) (val R) (v ^ N)) :
+    (TwoFloat.recip R).Valid ∧ (TwoFloat.recip R).WF ∧
+    |val (TwoFloat.recip R) - (v ^ N)⁻¹|
+      ≤ (1 / 2 ^ 102 + ((N : ℚ) - 1) * cK * (1 + 1 / 2 ^ 69) * (1 + 1 / 2 ^ 68)) * |(v ^ N)⁻¹| ∧
+    |val (TwoFloat.recip R) - (v ^ N)⁻¹| ≤ (6 * (N : ℚ) + 16) / 2 ^ 106 * |(v ^ N)⁻¹| := by
+  obtain ⟨a1, a2⟩ := rel_range hN (le_refl N) hrel
+  have hη' : (1 : ℚ) / 2 ^ 71 ≤ 1 / 8 := by norm_num
+  have pa : 0 ≤ |v| ^ N := by positivity
+  have h1 : 1 / 2 ^ 901 ≤ |val R| := aux_lo pa hη' hlo a1 num6
+  have h2 : |val R| ≤ 2 ^ 901 := by
+    have := mul_le_mul_of_nonneg_right hη' pa
+    rw [← num7]
+    linarith
+  obtain ⟨rv, rw', rb⟩ := recip_val hRv h1 h2
+  have he : v ^ N ≠ 0 := by
+    intro h0
+    rw [← abs_pow, h0, abs_zero] at hlo
+    have : (0 : ℚ) < 1 / 2 ^ 900 := by positivity
+    linarith
+  have hs := (rel_linear hN1 hN hrel).1
+  have hN1q : (0 : ℚ) ≤ (N : ℚ) - 1 := by
+    have : (1 : ℚ) ≤ N := by exact_mod_cast hN1
+    linarith
+  have hNq : (N : ℚ) - 1 ≤ 2 ^ 31 := by
+    have : (N : ℚ) ≤ 2 ^ 31 := by exact_mod_cast hN
+    linarith
+  have hE0 : 0 ≤ ((N : ℚ) - 1) * cK * (1 + 1 / 2 ^ 69) :=
+    mul_nonneg (mul_nonneg hN1q (le_of_lt cK_pos)) (by positivity)
+  have hE1 : ((N : ℚ) - 1) * cK * (1 + 1 / 2 ^ 69) ≤ 1 / 2 ^ 71 := by
+    have k1 : ((N : ℚ) - 1) * cK ≤ 2 ^ 31 * (1 / 2 ^ 103) :=
+      mul_le_mul hNq cK_le (le_of_lt cK_pos) (by positivity)
+    have k2 := mul_le_mul_of_nonneg_right k1 (show (0 : ℚ) ≤ 1 + 1 / 2 ^ 69 by positivity)
+    refine le_trans k2 ?_
+    norm_num
+  have key := recip_rel he hs rb hE0 hE1 (by norm_num)
+  refine ⟨rv, rw', key, le_trans key (mul_le_mul_of_nonneg_right ?_ (abs_nonneg _))⟩
+  have k3 := mul_le_mul_of_nonneg_left num5 hN1q
+  have e2 : ((N : ℚ) - 1) * (6 / 2 ^ 106) + 1 / 2 ^ 102 ≤ (6 * (N : ℚ) + 16) / 2 ^ 106 := by
+    rw [show (1 : ℚ) / 2 ^ 102 = 16 / 2 ^ 106 by norm_num, mul_div_assoc', ← add_div,
+      div_le_div_iff_of_pos_right (by positivity)]
+    linarith
+  have e3 : ((N : ℚ) - 1) * cK * (1 + 1 / 2 ^ 69) * (1 + 1 / 2 ^ 68)
+      = ((N : ℚ) - 1) * (cK * (1 + 1 / 2 ^ 69) * (1 + 1 / 2 ^ 68)) := by ring
+  rw [e3]
+  linarith
+
+/-- an approximation with relative error at most `1/2` has the sign of the exact value -/
+theorem close_sign {r e κ : ℚ} (h : |r - e| ≤ κ * |e|) (hκ : κ ≤ 1 / 2) (he : e ≠ 0) : 0 < r * e := by
+  have ha : 0 < |e| := abs_pos.2 he
+  have h1 : |r - e| ≤ 1 / 2 * |e| := le_trans h (mul_le_mul_of_nonneg_right hκ (le_of_lt ha))
+  have h2 : -((r - e) * e) ≤ |r - e| * |e| := by
+    rw [← abs_mul]; exact neg_le_abs _
+  have h3 : |r - e| * |e| ≤ 1 / 2 * |e| * |e| := mul_le_mul_of_nonneg_right h1 (le_of_lt ha)
+  have h4 : |e| * |e| = e * e := abs_mul_abs_self e
+  have h5 : 0 < e * e := mul_self_pos.2 he
+  nlinarith
 
 end PowiBound
